@@ -165,6 +165,14 @@ def check_b(ck, repo):
                 ck.holds("C07.b", g, s, "half of an exchange of two points between two clusters (counts unchanged)")
             else:
                 ck.violated("C07.b", g, s, f"labels[{p}] = {c} is neither paired with counter updates nor with the reverse move of another point: cluster sizes change without the counters knowing")
+    # swap partners come from a queue of candidates: entries whose point has moved since it was
+    # queued (distances_close set) must be discarded before the head is used
+    purge = [w for w in own_nodes(g.node) if isinstance(w, ast.While) and any(isinstance(x, ast.If) and src_of(x.test) == "distances_close[destind]" and any(isinstance(b, ast.Delete) and src_of(b) == "del cp[0]" for b in x.body) for x in ast.walk(w))]
+    swaps = [s for s, t in stores if not isinstance(t.slice, ast.Slice) and src_of(t.slice) == "destind"]
+    for sw_ in swaps:
+        n += 1
+        ok = any(w.lineno < sw_.lineno for w in purge)
+        ck.verdict(ok, "C07.b", g, sw_, "the swap partner is the first queued point that has not moved since it was queued", "stale entries of the transfer queue are not discarded before the head is used as swap partner: a point that already moved is 'swapped' again, which changes cluster sizes behind the counters' back")
     return n
 
 
@@ -276,6 +284,12 @@ def check_d(ck, repo):
             first = src_of(asg.targets[0].elts[0])
             ok = any(isinstance(r.value, ast.Name) and r.value.id == first for r in rets)
             ck.verdict(ok, "C07.d", pr, asg, "returns the balanced labels", "predict does not return the labels computed by the balanced assignment")
+    cm0 = ci.methods.get("constraint_kmeans")
+    if cm0 is not None:
+        sts = [x for x in own_nodes(cm0.node) if isinstance(x, (ast.Assign, ast.AugAssign)) and any(is_self_attr(t, "n_iter_") for t in assign_targets(x))]
+        call = [x for x in own_nodes(cm0.node) if isinstance(x, ast.Assign) and isinstance(x.value, ast.Call) and src_of(x.value.func) == "constraint_kmeans" and isinstance(x.targets[0], ast.Tuple)]
+        it_name = src_of(call[0].targets[0].elts[4]) if call and len(call[0].targets[0].elts) >= 5 else None
+        ck.verdict(len(sts) == 1 and isinstance(sts[0], ast.Assign) and src_of(sts[0].value) == it_name, "C07.d", cm0, sts[0] if sts else "self.n_iter_ = iter_", "n_iter_ is the counter returned by the constrained iterations (which started from the warm-up's count)", "n_iter_ is not plainly assigned the returned counter: warm-up iterations are counted twice and n_iter_ can exceed max_iter")
     # fit hands max_iter // 2 to the initial k-means and the counter starts from n_iter_
     cm = ci.methods.get("constraint_kmeans")
     if cm is not None:
@@ -319,6 +333,8 @@ WITNESSES = [
     {"name": "gain-move-no-decrement", "file": _F, "rule": "C07.b", "old": "            labels[ind] = dest\n            counters[cur] -= 1\n            counters[dest] += 1\n", "new": "            labels[ind] = dest\n            counters[dest] += 1\n"},
     {"name": "gain-capacity-ge", "file": _F, "rule": "C07.b", "old": "            counters[cur] > ave + leftclose[cur]\n", "new": "            counters[cur] >= ave + leftclose[cur]\n"},
     {"name": "gain-swap-half-missing", "file": _F, "rule": "C07.b", "old": "                    labels[ind] = dest\n                    labels[destind] = cur\n", "new": "                    labels[ind] = dest\n"},
+    {"name": "gain-stale-swap-partner", "file": _F, "rule": "C07.b", "old": "            while len(cp) > 0:\n                g, destind = cp[0]\n                if distances_close[destind]:\n                    del cp[0]\n                else:\n                    break\n", "new": ""},
+    {"name": "n-iter-accumulated", "file": _K, "rule": "C07.d", "old": "        self.n_iter_ = iter_\n", "new": "        self.n_iter_ += iter_\n"},
     {"name": "allowance-not-zeroed", "file": _F, "rule": "C07.c", "old": "    leftclose[:] = 0\n    leftclose[numpy.argsort", "new": "    leftclose[:] = counters[:] - ave\n    leftclose[numpy.argsort"},
     {"name": "allowance-wrong-count", "file": _F, "rule": "C07.c", "old": '[:nover]] = 1\n', "new": '[: nover + 1]] = 1\n'},
     {"name": "allowance-value-two", "file": _F, "rule": "C07.c", "old": '[:nover]] = 1\n', "new": '[:nover]] = 2\n'},
